@@ -142,24 +142,31 @@ def invoke (cfg : Cfg) (vm : VM) (m : Nat) (v : V) (weakOne strongMany : Bool) :
     | none => none
   r.map fun vm' => { vm' with ip := vm'.ip + 1, stack := vm'.stack ++ [v] }
 
+/-- One iteration of the unwinding loop of `execute`, up to the handler test: the frame is popped; if it carries a
+continuation mark the stack is cut at its base and — depending on the code — the mark is closed. -/
+def popUnwind (cfg : Cfg) (vm : VM) (f : Frame) (rest : List Frame) : VM :=
+  if f.mark.isSome then
+    if cfg.closeOnUnwind then
+      closeFrame { vm with frames := rest, popCount := vm.popCount - 1, stack := vm.stack.take f.sp, ip := f.ip,
+                           sp := topSp rest } f
+    else { vm with frames := rest, popCount := vm.popCount - 1, stack := vm.stack.take f.sp, ip := f.ip,
+                   sp := topSp rest }
+  else { vm with frames := rest, popCount := vm.popCount - 1 }
+
 /-- The handler search of `execute`: pop frames; the first one with a handler runs it (in the same frame, with the
 stack cut at the frame's base and the error pushed).  `none` = no handler: the error leaves `execute`. -/
 def unwind (cfg : Cfg) (err : V) : VM → List Frame → Option VM
   | _, [] => none
   | vm, f :: rest =>
-    let vm1 := { vm with frames := rest, popCount := vm.popCount - 1 }
-    let vm2 := if f.mark.isSome then
-                 let t := { vm1 with stack := vm1.stack.take f.sp, ip := f.ip, sp := topSp rest }
-                 if cfg.closeOnUnwind then closeFrame t f else t
-               else vm1
     match f.handler with
     | some h =>
+        let vm2 := popUnwind cfg vm f rest
         let f' : Frame := { f with handler := none, fn := h, mark := none }
         let below := if rest.isEmpty && cfg.dummyFrame then [{ sp := f.sp, ip := 0, fn := h, handler := none, mark := none }]
                      else rest
         some { vm2 with stack := vm2.stack.take f.sp ++ [err], frames := f' :: below, sp := f.sp, ip := 0,
                         popCount := vm2.popCount + 1 }
-    | none => unwind cfg err vm2 rest
+    | none => unwind cfg err (popUnwind cfg vm f rest) rest
 
 inductive Op where
   | step (top : List V) (ip : Nat)                 -- the running frame changes its part of the stack / its ip
